@@ -193,7 +193,27 @@ RaceMacros(S0) == UNION {
              : P \in { Q \in PendingRecv(S0, c) : Q.toT # 0 /\ EdgeTick(Q) - (S0.now + 2) \in 1..40 } }
       : c \in Chains }
 
-EdgeMacros(S0) == StaleMacros(S0) \cup RaceMacros(S0) \cup
+\* Use of an expired client (only in runs with a short trusting period): the proof height is held by the client,
+\* then time jumps past the trusting period before the relay message is executed (must be rejected).
+ExpiredMacros(S0) == IF TP > 1000 THEN {} ELSE UNION {
+         { LET o == Cp(c)  h == S0.ch[o].h + 1 IN
+           << Blk(o, 1), Upd(c, h), Blk(c, TP + 1),
+              [a |-> Proto(P, "Recv"), c |-> c, dt |-> 1, pkt |-> P, ph |-> h] >>
+           : P \in { Q \in PendingRecv(S0, c) :
+                        IF Q.proto = "v1" THEN (Q.toT = 0 \/ Q.toT > S0.now + TP + 4) /\ (Q.toH = 0 \/ Q.toH > S0.ch[c].h + 4)
+                                          ELSE 2 * Q.toT > S0.now + TP + 4 } }
+    \cup { LET o == Cp(c)  h == S0.ch[o].h + 1 IN
+           << Blk(o, 1), Upd(c, h), Blk(c, TP + 1),
+              [a |-> Proto(P, "Ack"), c |-> c, dt |-> 1, pkt |-> P, ph |-> h, ack |-> S0.ch[o].cur.ack[Key(P)], canon |-> TRUE] >>
+           : P \in PendingAck(S0, c) }
+    \cup { LET o == Cp(c)  h == S0.ch[o].h + 1 IN
+           << Blk(o, TP + 1), Upd(c, h), Blk(c, TP + 1),
+              [a |-> Proto(P, "Timeout"), c |-> c, dt |-> 1, pkt |-> P, ph |-> h,
+               nsr |-> IF KIND = "ORDERED" THEN S0.ch[o].cur.nr ELSE 1] >>
+           : P \in { Q \in PendingTimeout(S0, c) : Q.toT # 0 } }
+      : c \in Chains }
+
+EdgeMacros(S0) == StaleMacros(S0) \cup RaceMacros(S0) \cup ExpiredMacros(S0) \cup
     UNION { UNION {
          { MacroRecvEdgeH(S0, c, P, k) : P \in { Q \in PendingRecv(S0, c) : Q.proto = "v1" /\ Q.toH # 0
                                                    /\ Q.toH - k - 2 - S0.ch[c].h \in 0..8 } }
